@@ -1965,11 +1965,17 @@ class StateEngine(object):
                     asl_state_collect_results(state_type, id)
             else:
                 """
-                If task_terminated just tidy up self.branch_metadata for current
-                execution_arn otherwise end the execution.
+                If task_terminated and the execution has already ended (this is
+                one of its cancelled branches reporting back) just tidy up
+                self.branch_metadata for current execution_arn, otherwise end
+                the execution: its Tasks and Waits were cancelled from outside,
+                e.g. because the parent Task of this (child) execution timed out
+                or was terminated, whether or not they were in a Map or Parallel
+                state, and nothing is left to carry the execution forward.
                 """
                 if task_terminated:
-                    if execution_arn in self.branch_metadata:
+                    metadata = self.branch_metadata.get(execution_arn)
+                    if metadata and metadata.execution_ended:
                         self.check_pending_results(execution_arn)
                     else:
                         self.end_execution(state_machine, state_type, event)           
